@@ -72,7 +72,7 @@ CHECKS = {
              'from that run\'s measurement-flip rows at the index sets the specification assigns; m2d on random measurement and sweep '
              'tables must give parity(measured) xor the specification\'s noiseless parity under the same sweep bits (with and without '
              'skip_reference_sample, appended observables); detect option matrix {append, prepend, obs_out, plain} x 6 formats x shot '
-             'counts decodes to identical bits; deterministic detection data identical in memory vs forced streaming. `stim m2d --ran_without_feedback` is decided by an oracle that does not use the implementation\'s inlining: the record controls become variables of the specification, the coefficient matrix A (result j flips result k) maps data taken without feedback to the record m = m\' + A m of the circuit with feedback, and the events must be the original circuit\'s detectors on m (feedback pairs mixed with ordinary pairs in one instruction, adjacent lines the parser fuses).',
+             'counts decodes to identical bits; deterministic detection data identical in memory vs forced streaming. `stim m2d --ran_without_feedback` is decided by an oracle that does not use the implementation\'s inlining: the record controls become variables of the specification, the coefficient matrix A (result j flips result k) maps data taken without feedback to the record m = m\' + A m of the circuit with feedback, and the events must be the original circuit\'s detectors on m (feedback pairs mixed with ordinary pairs in one instruction, adjacent lines the parser fuses). RevProg.detector_in_every_shot: on whole adaptive programs a shot\'s detector value is the reference value xor the anticommuting faults.',
         note=TB + ' OBSERVABLE_INCLUDE Pauli targets are not exercised here.',
         design='§4 C04'),
     'C03': dict(
@@ -85,7 +85,7 @@ CHECKS = {
              'implementation\'s model must define the same joint distribution, compared through E[(-1)^(s.x)] on all unit vectors, '
              'pairs and random vectors (exact to 1e-7; with approximate_disjoint_errors within the first-order bound 2*P^2 per '
              'approximated channel); rejections (non-deterministic detector/observable, channels needing the approximation, '
-             'over-mixing) must match the specification; options fold_loops / allow_gauge_detectors / approximate_disjoint_errors. Rejection clause: a non-deterministic observable (also one sharing its anticommuting set with a gauge detector) must be refused whether or not gauge detectors are allowed. The probability folding of add_error is translated to Q and proved equal to the merge rule by ring (GenProofs_AddError); MPP / SPP entry points of the backward classes are tied from source and MppRev proves the reversed target list is the reversed products with the same content. RevTrack: along whole runs (any number of Clifford steps and Hermitian measurements) the flip parity of a detector under a Pauli error E is [E, sensitivity] for every frame randomisation when the tracker\'s anticommutation check passes (fparz_is_acom), and such detectors whose start sensitivity commutes with the initial group are deterministic over all legal runs (detector_deterministic, via frame completeness).',
+             'over-mixing) must match the specification; options fold_loops / allow_gauge_detectors / approximate_disjoint_errors. Rejection clause: a non-deterministic observable (also one sharing its anticommuting set with a gauge detector) must be refused whether or not gauge detectors are allowed. The probability folding of add_error is translated to Q and proved equal to the merge rule by ring (GenProofs_AddError); MPP / SPP entry points of the backward classes are tied from source and MppRev proves the reversed target list is the reversed products with the same content. RevTrack: along whole runs (any number of Clifford steps and Hermitian measurements) the flip parity of a detector under a Pauli error E is [E, sensitivity] for every frame randomisation when the tracker\'s anticommutation check passes (fparz_is_acom), and such detectors whose start sensitivity commutes with the initial group are deterministic over all legal runs (detector_deterministic, via frame completeness). RevProg extends this to adaptive programs (feedback toggling record flags, resets, sweep and fault bits): detector_in_every_shot - in every legal shot a checked detector equals the reference value xor the parity of the faults whose Pauli anticommutes with its back-propagated sensitivity (the content of a detector error model, to all orders).',
         note=TB + ' The analyzer\'s bookkeeping (add_error_combinations, gauge removal, unreversed) is not modelled in Coq; pair and product measurements enter the '
                   'adjointness theorem only through their decomposition. Distribution equality is '
                   'a randomized identity test over test vectors.',
@@ -218,7 +218,7 @@ CHECKS = {
              'REPEAT, TICKs) every location returned by ErrorMatcher::explain_errors_from_circuit is mapped through its stack frames '
              'to a position of the unrolled circuit; the reported Pauli product is injected there (or the reported measurement result '
              'is flipped as later feedback sees it) in Spec.srun and must flip exactly the error\'s detectors/observables; gate name, '
-             'target range and tick must identify that position; every error of the model (or filter) must have a location. Caller-supplied filter models (subsets, separators, cancelling repeated targets) are used besides the circuit\'s own model. RevTrack.error_flips_iff_anticommutes: on whole runs an injected Pauli flips exactly the detectors whose back-propagated sensitivity it anticommutes with.',
+             'target range and tick must identify that position; every error of the model (or filter) must have a location. Caller-supplied filter models (subsets, separators, cancelling repeated targets) are used besides the circuit\'s own model. RevTrack.error_flips_iff_anticommutes: on whole runs an injected Pauli flips exactly the detectors whose back-propagated sensitivity it anticommutes with. RevProg.detector_in_every_shot covers feedback, resets and several simultaneous faults.',
         note=TB + ' The matcher\'s bookkeeping is not modelled in Coq; reported coordinates are compared with the circuit\'s coordinate queries (C15).',
         design='§4 C18'),
     'C14': dict(
